@@ -319,6 +319,13 @@ def check_e(ck, repo):
     in_loop = {n_.attr for l_ in loops_ for n_ in ast.walk(l_) if isinstance(n_, ast.Attribute) and src_of(n_.value) == "self"}
     need = {"sample_f", "sample_y", "sample_w"}
     ck.verdict(need <= in_loop, "C09.e", None, f"_mse: loop over range(start, end) reads {sorted(in_loop & need)}", "the squared residuals are recomputed row by row from the features, the targets and the weights of the range", f"_mse no longer recomputes the residual of every row of (start, end) from sample_f, sample_y and sample_w (reads in such a loop: {sorted(in_loop & need)}): a by-product of the solver (e.g. the tail of the right-hand side after dgelss) is the residual norm only when the design of the range has full column rank, so the impurity of a range with a constant or duplicated feature is wrong", file=LINEAR, function="LinearRegressorCriterion._mse", line=ms.node.lineno)
+    # node value of the linear criterion: sum of w*y over sum of w
+    mn_ = cy_fi(lm, "LinearRegressorCriterion", "_mean")
+    adds = {}
+    for a_ in ast.walk(mn_.node):
+        if isinstance(a_, ast.AugAssign) and isinstance(a_.op, ast.Add) and isinstance(a_.target, ast.Name) and isinstance(a_.value, ast.Subscript) and src_of(a_.value.value).startswith("self."):
+            adds[a_.target.id] = src_of(a_.value.value)
+    ck.verdict(sorted(adds.values()) == ["self.sample_w", "self.sample_wy"], "C09.e", None, f"_mean accumulates {sorted(adds.values())}", "weighted mean = sum of w*y over sum of w on the range", f"_mean of the linear criterion accumulates {sorted(adds.values())}, not sample_wy and sample_w: with non-unit weights the node value is not the weighted mean of the targets", file=LINEAR, function="LinearRegressorCriterion._mean", line=mn_.node.lineno)
     # right-hand side: weighted targets of the same rows
     rhs = [s for s in ast.walk(fi.node) if isinstance(s, ast.Assign) and isinstance(s.targets[0], ast.Subscript) and ex.text(s.targets[0].value, fi, s) in ("self.sample_pC", "pC")]
     okr = len(rhs) == 1 and src_of(rhs[0].targets[0].slice) == "i - start" and src_of(rhs[0].value) == "self.sample_wy[i]" and any(isinstance(p, ast.For) and src_of(p.iter) == "range(start, end)" and src_of(p.target) == "i" for p in _parents(rhs[0]))
